@@ -3,6 +3,7 @@ import Driver.Instant
 import Driver.Strpf
 import Driver.Scale
 import Driver.Sort
+import Driver.Stream
 open Driver
 
 def step (line : String) : String :=
@@ -14,6 +15,7 @@ def step (line : String) : String :=
     else if op.startsWith "s." then runStrpf op args
     else if op.startsWith "c." then runScale op args
     else if op.startsWith "q." then runSort op args
+    else if op == "m.run" then runStream args
     else "bad-op"
 
 partial def loop (h : IO.FS.Stream) (out : IO.FS.Stream) : IO Unit := do
